@@ -110,6 +110,7 @@ func specRecLen(n uint32) uint32 { return (16 + n + 31) / 32 * 32 }
 //@ ghost tried int
 //@ ghost nopath bool
 //@ ghost fullname string
+//@ ghost cutpath string
 //@ ghost touched bool
 //@ ghost refreshed bool
 //@ ghost ledger wide
@@ -620,6 +621,13 @@ func specMapped(m *mappedFile) bool {
 //@   at call cutLastDot#1: assert arg0 == fr.Function
 //@   at call Sprintf#1: assert ($nopath ==> path == "") && (path == "\"" ==> lastImport != "")
 //@   at call Sprintf#2: assert ($nopath ==> path == "") && (path == "\"" ==> lastImport != "")
+// The decoder remembers the path of every line it expands, whatever kind of frame
+// the line stands for; so must the encoder: when a frame is rendered, the
+// remembered import path is the one cut from this frame's symbol (written out, or
+// abbreviated by the ditto mark because it was remembered already).
+//@   at call cutLastDot#1: after ghost $cutpath = result0
+//@   at call Sprintf#1: assert lastImport == $cutpath && (path == $cutpath || path == "\"")
+//@   at call Sprintf#2: assert lastImport == $cutpath && (path == $cutpath || path == "\"")
 // The name is the prefix, a newline and the rendered frames joined by newlines; it
 // is returned whole when it fits, and otherwise cut so that it ends, at exactly
 // the limit, in the visible marker.
@@ -627,7 +635,7 @@ func specMapped(m *mappedFile) bool {
 //@   at call Join#1: after ghost $fullname = prefix + "\n" + result
 //@   ensures len($fullname) <= maxNameLen ==> result == $fullname
 //@   ensures len($fullname) > maxNameLen ==> result == $fullname[:maxNameLen-len("\ntruncated\n")] + "\ntruncated\n" && len(result) == maxNameLen
-//@   modifies $nopath, $fullname
+//@   modifies $nopath, $fullname, $cutpath
 
 //@ contract (*StackCounter).Inc
 //@   requires 0 <= c.depth && c.depth <= 1<<20
@@ -636,7 +644,7 @@ func specMapped(m *mappedFile) bool {
 //@   requires forall i int :: 0 <= i && i < len(c.stacks) && c.stacks[i].counter != nil ==> c.stacks[i].counter.file != nil
 //@   loop 1: invariant -1 <= rangeindex && rangeindex < len(c.stacks)
 //@   loop 1: decreases len(c.stacks)-rangeindex
-//@   modifies heap, $ledger, $lost, $refreshed, $touched, $nopath, $fullname
+//@   modifies heap, $ledger, $lost, $refreshed, $touched, $nopath, $fullname, $cutpath
 
 // ---------------------------------------------------------------------------
 // C09: the week a counter file covers.
